@@ -423,7 +423,14 @@ func (la *lockAnalysis) transferCall(st *relState, instr ssa.Instruction) {
 			return
 		}
 		if isLock {
-			st.lock(fv)
+			if isSharedLockOp(instr) {
+				// RLock excludes writers that take Lock, but not other holders of RLock: it is held for the purpose of
+				// "what may be held here" but gives no mutual exclusion, so it never enters the must-lockset
+				st.acqMay[fv] = true
+				delete(st.relMust, fv)
+			} else {
+				st.lock(fv)
+			}
 		} else {
 			st.unlock(fv)
 		}
@@ -473,4 +480,14 @@ func (la *lockAnalysis) stateAtDeferRun(d *ssa.Defer) relState {
 		return newRel()
 	}
 	return st
+}
+
+// isSharedLockOp: the instruction is (*sync.RWMutex).RLock.
+func isSharedLockOp(in ssa.Instruction) bool {
+	cc := callCommon(in)
+	if cc == nil {
+		return false
+	}
+	f := cc.StaticCallee()
+	return f != nil && f.Name() == "RLock" && f.Signature.Recv() != nil && strings.HasSuffix(f.Signature.Recv().Type().String(), "sync.RWMutex")
 }
